@@ -22,7 +22,7 @@ NODE_CONFIGS_Q = [(('S1', 'none'),), (('S1', 'gpu'),), (('S1', 'none'), ('S1', '
 NODE_CONFIGS_T = NODE_CONFIGS_Q + [(('S1', 'none'), ('S2', 'gpu'), ('S1', 'nvme+shared')), (('S2', 'none'), ('S2', 'none'), ('S1', 'gpu'))]
 # node sizing variants (third member of a node entry): explicit capacities (default), an instance-type hint only, or unsized
 NODE_CONFIGS_SIZING = [(('S1', 'gpu', 'hints'),), (('S1', 'none'), ('S2', 'nvme+shared', 'unsized')), (('S2', 'gpu', 'hints'), ('S1', 'none'))]
-KINDS = ('bridge', 'v4ext', 'v6ext', 'pm_in', 'pm_out')
+KINDS = ('bridge', 'bridge_vlan', 'v4ext', 'v6ext', 'pm_in', 'pm_out')   # bridge_vlan: its service port is labelled, but not named
 CAPS = [(2, 8, 10), (4, 16, 100), (8, 32, 500)]
 
 
@@ -58,6 +58,9 @@ def build(nodes_cfg, services, node_order, svc_order, facility):
         if kind == 'bridge':
             s = t.add_network_service(name=name, nstype=ServiceType.L2Bridge, interfaces=[port], capacities=Capacities(bw=10 + j))
             s.interface_list[0].labels = Labels(local_name=f'HGE-{j}')
+        elif kind == 'bridge_vlan':
+            s = t.add_network_service(name=name, nstype=ServiceType.L2Bridge, interfaces=[port])
+            s.interface_list[0].labels = Labels(vlan=str(100 + j))
         elif kind == 'v4ext':
             t.add_network_service(name=name, nstype=ServiceType.FABNetv4Ext, interfaces=[port])
         elif kind == 'v6ext':
@@ -273,7 +276,7 @@ def run(report):
     cases = descriptions(report.tier)
     g = explore_cases(report, 'slices', eval_slice, cases, chunk=4,
                       rule='slice descriptions (1-3 nodes on two sites with distinct cpu/ram/disk and component mixes; 0-3 (thorough 4) '
-                           'services from {bridge with bw, FABNetv4Ext, FABNetv6Ext, in-slice port mirror, out-of-slice port mirror} '
+                           'services from {bridge with bw and a named service port, bridge with a vlan-tagged unnamed service port, FABNetv4Ext, FABNetv6Ext, in-slice port mirror, out-of-slice port mirror} '
                            'per node, with repetition; optional facility) x ALL permutations of node and service creation order; '
                            'each build is validated, collected from the topology and from its serialized model, and compared with an '
                            'independent tally of the stored graph; one case = one description with all its orders')
